@@ -253,7 +253,9 @@ def quote_split(rng, body, psplit=0.0):
         prev = c
     out = '"' + parts[0] + '"'
     for p in parts[1:]:
-        out += rng.choice([" ", "\n", "\n    ", "  \n\t", " # split here\n  ", "", "\n// c\n"]) + '"' + p + '"'
+        # (also truly empty lines, whitespace-only lines and comment-only lines between two pieces)
+        out += rng.choice([" ", "\n", "\n    ", "  \n\t", " # split here\n  ", "", "\n// c\n", "\n\n", "\n\n\n  ", "\n \t \n",
+                           "\n# only a comment\n", " // c\n\n"]) + '"' + p + '"'
     return out
 
 
